@@ -132,6 +132,7 @@ class NamedUniverse(gen.Universe):
         self.widths = tuple(widths)
         self.U = self.tm.Type("U", 0) if "uf" in self.theories else None
         self.syms = {}
+        self.names = names
         nm = names.make
 
         def add(ty, bases):
@@ -332,7 +333,7 @@ def classify_smt(f, g):
     """signature details of an SMT-LIB round-trip difference"""
     a, b = first_difference(f, g)
     shape = "%s->%s" % (root_name(a), root_name(b))
-    if a.node_type() == op.DIV and a.arg(0).is_int_constant() and a.arg(1).is_int_constant():
+    if _has_int_const_div(a):
         shape = "int-div-of-constants"
     return shape, a, b
 
@@ -370,8 +371,11 @@ def run_smt_roundtrip(ctx, n):
             ctx.count("smt_roundtrip_" + pname)
             rep = {"printer": pname, "decls": decls, "text": text, "formula": semantic.readable(f), "wire": _enc(f)}
             if res[0] == "err":
-                ctx.report_s({"oracle": "roundtrip", "printer": pname, "kind": "parse-error", "error": res[1],
-                              "names": _name_kinds(f, names)},
+                sg = {"oracle": "roundtrip", "printer": pname, "kind": "parse-error", "error": res[1],
+                      "names": _name_kinds(f, names)}
+                if _has_int_const_div(f):
+                    sg["shape"] = "int-div-of-constants"
+                ctx.report_s(sg,
                              "parse(print(f)) raised %s: %s" % (res[1], res[2]), rep)
                 continue
             g = res[1]
@@ -383,6 +387,10 @@ def run_smt_roundtrip(ctx, n):
                              dict(rep, returned=semantic.readable(g)))
             else:
                 ctx.sample({"printer": pname, "text": text[:200]})
+
+
+def _has_int_const_div(f):
+    return any(n.node_type() == op.DIV and n.arg(0).is_int_constant() and n.arg(1).is_int_constant() for n in _nodes(f))
 
 
 def _name_kinds(f, names):
@@ -410,12 +418,23 @@ def _enc(f):
 
 # ------------------------------------------------------------------------------------------
 # scripts
-def gen_commands(rng, env, uni, fg):
+SCRIPT_PROFILES = {
+    # theories of the formulas, logics under which every numeral of the script keeps its sort when read back
+    "mixed": (("bool", "int", "real", "bv", "str", "arr", "uf", "quant"), ["QF_AUFBVLIRA", "AUFNIRA", None, None]),
+    "real": (("bool", "real", "uf", "quant"), ["QF_LRA", "LRA", "QF_UFLRA", "QF_RDL", None]),
+    "bv": (("bool", "bv", "arr", "uf", "quant"), ["QF_BV", "BV", "UFBV", "QF_AUFBV", "QF_ABV", None]),
+    "int": (("bool", "int", "arr", "uf", "quant"), ["QF_LIA", "LIA", "QF_AUFLIA", "QF_UFLIA", "QF_IDL", None]),
+}
+
+
+def gen_commands(rng, env, uni, fg, profile):
     """a list of SmtLibCommand made of every serialisable command"""
     mgr = env.formula_manager
     cmds = []
     r = rng
-    logic = r.choice(["QF_UFLIRA", "QF_AUFBVLIRA", "AUFLIRA", "QF_LIRA", "BV", "UFBV", "QF_LRA", "LIA", None, None])
+    logic = r.choice(SCRIPT_PROFILES[profile][1])
+    has_int = "int" in uni.theories
+    has_real = "real" in uni.theories
     if logic:
         cmds.append(SmtLibCommand(smtcmd.SET_LOGIC, [get_logic_by_name(logic)]))
     if r.random() < 0.5:
@@ -429,7 +448,8 @@ def gen_commands(rng, env, uni, fg):
     body = []
     used = []
     B = lambda d=3: fg.gen(BOOL, d)
-    num_t = lambda: r.choice([INT, REAL])
+    num_types = [t for t, ok in ((INT, has_int), (REAL, has_real), (BVType(4), "bv" in uni.theories)) if ok]
+    num_t = lambda: r.choice(num_types)
     for _ in range(r.randint(3, 10)):
         k = r.choice(["assert", "assert", "assert", "define-fun", "push", "pop", "check-sat", "get-value", "assert-soft",
                       "maximize", "minimize", "minmax", "maxmin", "check-allsat", "get-objectives", "load-objective-model",
@@ -446,7 +466,7 @@ def gen_commands(rng, env, uni, fg):
             fvs = [s for s in sorted(expr.get_free_variables(), key=lambda s: s.symbol_name())
                    if not s.symbol_type().is_function_type() and not s.symbol_type().is_array_type()]
             formals = r.sample(fvs, min(len(fvs), r.choice([0, 1, 2])))
-            name = "df%d" % len(body)
+            name = uni.names.make("df")
             body.append(SmtLibCommand(smtcmd.DEFINE_FUN, [name, formals, rt, expr]))
             used.append(expr)
         elif k == "push":
@@ -463,12 +483,17 @@ def gen_commands(rng, env, uni, fg):
                 used += ts
         elif k == "assert-soft":
             f = B(2)
-            w = r.choice([mgr.Int(1), mgr.Int(3), mgr.Real(Fraction(1, 2)), mgr.Int(-2), mgr.Real(2)])
+            ws = []
+            if has_int or logic is None:
+                ws += [mgr.Int(1), mgr.Int(3), mgr.Int(-2)]
+            if has_real or not has_int:
+                ws += [mgr.Real(Fraction(1, 2)), mgr.Real(2), mgr.Real(-1)]
+            w = r.choice(ws)
             gid = r.choice(["goal", "g1", "I"])
             body.append(SmtLibCommand(smtcmd.ASSERT_SOFT, [f, [(":weight", w), (":id", gid)]]))
             used.append(f)
         elif k in ("maximize", "minimize"):
-            t = fg.gen(r.choice([INT, REAL, BVType(4)]), 2)
+            t = fg.gen(num_t(), 2)
             opts = []
             if r.random() < 0.5:
                 opts.append((":id", "obj%d" % len(body)))
@@ -584,6 +609,11 @@ def compare_commands(env, c1, c2):
         if b2r is not b1 and not (_has(b1, op.ARRAY_VALUE) and match_unfolded(b1, b2r)):
             return "define-fun %s: body %s became %s" % (n1, semantic.readable(b1, 150), semantic.readable(b2r, 150))
         return None
+    if c1.name == smtcmd.DECLARE_SORT:
+        a, b = c1.args[0], c2.args[0]
+        if (a.name, a.arity) != (b.name, b.arity):
+            return "declare-sort %s %s became %s %s" % (a.name, a.arity, b.name, b.arity)
+        return None
     if len(c1.args) != len(c2.args):
         return "%s: %d arguments became %d" % (c1.name, len(c1.args), len(c2.args))
     for x, y in zip(c1.args, c2.args):
@@ -608,9 +638,11 @@ def run_script_roundtrip(ctx, n):
             break
         env = Environment()
         names = Names(ctx.rng, esc=False)
-        uni = NamedUniverse(env, names, widths=(1, 2, 4, 8))
+        profile = ctx.rng.choice(["mixed", "mixed", "real", "bv", "int"])
+        uni = NamedUniverse(env, names, theories=SCRIPT_PROFILES[profile][0], widths=(1, 2, 4, 8))
         fg = gen.FormulaGen(ctx.rng, uni, max_depth=3, quant_prob=0.08)
-        cmds = gen_commands(ctx.rng, env, uni, fg)
+        cmds = gen_commands(ctx.rng, env, uni, fg, profile)
+        ctx.count("script_profile_" + profile)
         daggify = ctx.rng.random() < 0.5
         rep = {"daggify": daggify}
         try:
@@ -624,8 +656,11 @@ def run_script_roundtrip(ctx, n):
         ctx.count("scripts")
         r1 = parse_script(env, text0)
         if r1[0] == "err":
-            ctx.report_s({"oracle": "script-roundtrip", "kind": "parse-error", "error": r1[1], "stage": "constructed",
-                          "names": "+".join(sorted(set(names.kinds.values())))},
+            sg = {"oracle": "script-roundtrip", "kind": "parse-error", "error": r1[1], "stage": "constructed",
+                  "names": "+".join(sorted(set(names.kinds.values())))}
+            if _cmds_have_int_const_div(cmds):
+                sg["shape"] = "int-div-of-constants"
+            ctx.report_s(sg,
                          "the serialisation of a constructed script is not parsed: %s %s" % (r1[1], r1[2]), rep)
             continue
         s1 = r1[1]
@@ -667,6 +702,19 @@ def _script_shape(desc):
     if "/" in desc and re.search(r"\(\-?\d+ / \-?\d+\)", desc):
         return "int-div-of-constants"
     return "other"
+
+
+def _cmds_have_int_const_div(cmds):
+    from pysmt.fnode import FNode
+
+    def terms(x):
+        if isinstance(x, FNode):
+            yield x
+        elif isinstance(x, (list, tuple)):
+            for y in x:
+                for t in terms(y):
+                    yield t
+    return any(_has_int_const_div(t) for c in cmds for t in terms(c.args))
 
 
 def _unfold_cmd(env, c):
@@ -779,13 +827,20 @@ def hr_flat(text):
         return items
 
     def sole_op(items):
-        if len(items) >= 3 and len(items) % 2 == 1:
-            ops = set(x for x in items[1::2] if isinstance(x, str))
-            if len(ops) == 1 and all(isinstance(x, str) for x in items[1::2]):
-                o = next(iter(ops))
-                if o in HR_NARY:
-                    return o
-        return None
+        # the printer parenthesises every infix application: a group holds one kind of infix operator
+        ops = set(x for x in items if isinstance(x, str) and x in HR_NARY)
+        return next(iter(ops)) if len(ops) == 1 else None
+
+    def operands(items, o):
+        out, cur = [], []
+        for x in items:
+            if isinstance(x, str) and x == o:
+                out.append(cur)
+                cur = []
+            else:
+                cur.append(x)
+        out.append(cur)
+        return out
 
     def flat(items):
         items = [flat(x) if isinstance(x, list) else x for x in items]
@@ -793,11 +848,16 @@ def hr_flat(text):
         if o is None:
             return items
         out = []
-        for k, x in enumerate(items):
-            if k % 2 == 0 and isinstance(x, list) and sole_op(x) == o:
-                out.extend(x)
+        for opd in operands(items, o):
+            if len(opd) == 1 and isinstance(opd[0], list) and sole_op(opd[0]) == o:
+                sub = opd[0]            # already flat
+                if out:
+                    out.append(o)
+                out.extend(sub)
             else:
-                out.append(x)
+                if out:
+                    out.append(o)
+                out.extend(opd)
         return out
     return flat(parse())
 
@@ -896,10 +956,84 @@ def finish_sem(ctx, lines, meta):
                      dict(rep, request=line, answer=ans))
 
 
+def run_witnesses(ctx):
+    """deliberate witnesses of the known findings (reported with their signatures)"""
+    # F10: integer division of two constants is printed (/ 7 2) and read back as the real 7/2
+    env = Environment()
+    m = env.formula_manager
+    f = m.Equals(m.Symbol("x", INT), m.Div(m.Int(7), m.Int(2)))
+    for dag in (False, True):
+        pname = "dag" if dag else "tree"
+        text = print_formula(f, dag)
+        res = parse_term(env, declarations(env, [f]), text)
+        ctx.case(("witness", pname, text))
+        rep = {"printer": pname, "text": text, "formula": semantic.readable(f), "decls": declarations(env, [f])}
+        if res[0] == "err":
+            ctx.report_s({"oracle": "roundtrip", "printer": pname, "kind": "parse-error", "error": res[1],
+                          "shape": "int-div-of-constants"}, "parse(print(f)) raised %s" % res[1], rep)
+        elif res[1] is not f:
+            ctx.report_s({"oracle": "roundtrip", "printer": pname, "kind": "different-object", "shape": "int-div-of-constants"},
+                         "parse(print(f)) is not f", rep)
+    # F39: symbols named ( or ) ; F16b: a symbol spelling a literal
+    for nm, shape, mk in ((")", "symbol-named-paren", lambda m, s: m.Not(s)),
+                          ("(", "symbol-named-paren", lambda m, s: m.Not(s)),
+                          ("5", "symbol-spelling-a-literal", None)):
+        env = Environment()
+        m = env.formula_manager
+        if mk is None:
+            s = m.Symbol(nm, INT)
+            f = m.LT(s, m.Int(5))
+        else:
+            s = m.Symbol(nm, BOOL)
+            f = mk(m, s)
+        decls = declarations(env, [f])
+        text = print_formula(f, False)
+        res = parse_term(env, decls, text)
+        ctx.case(("witness", shape, text))
+        rep = {"printer": "tree", "text": text, "decls": decls, "formula": semantic.readable(f)}
+        if res[0] == "err":
+            ctx.report_s({"oracle": "roundtrip", "printer": "tree", "kind": "parse-error", "error": res[1], "shape": shape},
+                         "parse(print(f)) raised %s: %s" % (res[1], res[2]), rep)
+        elif res[1] is not f:
+            ctx.report_s({"oracle": "roundtrip", "printer": "tree", "kind": "different-object", "shape": shape},
+                         "parse(print(f)) is not f: %s" % semantic.readable(res[1]), rep)
+    # F43: the default weight of assert-soft is the Int 1; under a logic without Ints the numeral 1 is read as a Real
+    env = Environment()
+    t0 = "(set-logic QF_BV)(declare-fun p () Bool)(assert-soft p)"
+    r1 = parse_script(env, t0)
+    ctx.case(("witness", t0))
+    if r1[0] == "ok":
+        t1 = serialize_script(r1[1].commands, False)
+        r2 = parse_script(env, t1)
+        if r2[0] == "ok":
+            d = compare_commands(env, r1[1].commands[-1], r2[1].commands[-1])
+            if d:
+                ctx.report_s({"oracle": "script-roundtrip", "kind": "command-differs", "stage": "parsed", "command": "assert-soft",
+                              "shape": "default-weight-under-logic-without-ints"}, d, {"text0": t0, "text1": t1, "daggify": False})
+    # F30: human-readable format
+    for shape, build in (("string-with-quote", lambda m: m.Equals(m.Symbol("s", STRING), m.String('a"b'))),
+                         ("identifier-with-quote", lambda m: m.Not(m.Symbol("x'", BOOL))),
+                         ("identifier-printed-unquoted", lambda m: m.Not(m.Symbol("a.b", BOOL))),
+                         ("identifier-printed-unquoted", lambda m: m.Not(m.Symbol("k!1", BOOL)))):
+        env = Environment()
+        f = build(env.formula_manager)
+        text = f.serialize()
+        ctx.case(("witness", "hr", text))
+        try:
+            g = HRParser(env).parse(text)
+            if g is not f:
+                ctx.report_s({"oracle": "hr-roundtrip", "kind": "serialisation-differs", "shape": shape},
+                             "HR round trip: %s came back as %s" % (text, g.serialize()), {"text": text})
+        except Exception as e:
+            ctx.report_s({"oracle": "hr-roundtrip", "kind": "parse-error", "error": type(e).__name__, "shape": shape},
+                         "HRParser.parse(f.serialize()) raised %s" % type(e).__name__, {"text": text})
+
+
 def run(ctx):
     warnings.simplefilter("ignore")
     quick = ctx.tier == "quick"
     lines, meta = [], []
+    run_witnesses(ctx)
     run_smt_roundtrip(ctx, 900 if quick else 15000)
     run_script_roundtrip(ctx, 150 if quick else 2500)
     run_hr_roundtrip(ctx, 900 if quick else 15000, lines, meta)
